@@ -16,7 +16,9 @@ RUNNER = "engine"
 TYPES = ["require_mfa", "require_level", "http_challenge", "require_consent", "require_terms_accept",
          "require_captcha", "require_reauth", "require_age_verified", "require_geo", None, 5]
 CTX_VALUES = ["<absent>", None, False, True, 0, 1, 3, 2.9, 3.0, "3", " 3 ", "3_0", "+3", "high", "", [], [1], {},
-              {"k": True}, {"k": 0}, gen.NAN, gen.INF, -1, "0", 10**30, -0.0, "-1", "1e3", "3.0"]
+              {"k": True}, {"k": 0}, gen.NAN, gen.INF, -1, "0", 10**30, -0.0, "-1", "1e3", "3.0",
+              # numeric text at CPython's int/str conversion limit (4300 digits), 10**400 as a number
+              "9" * 4300, "9" * 4301, "-" + "1" * 4301, " 0_0" + "9" * 4298, "9" * 5000, 10**400, -(10**400), 1e308, -gen.INF]
 KEY_OF = {"require_mfa": "mfa", "require_level": "auth_level", "require_consent": "consent",
           "require_terms_accept": "tos_accepted", "require_captcha": "captcha_passed",
           "require_reauth": "reauth_age_seconds", "require_age_verified": "age_verified"}
